@@ -13,6 +13,7 @@ from vlib import core
 
 THEOREMS = ["C11_index_inv", "C11_dedup", "C11_unit", "C11_counts", "C11_json_roundtrip", "C11_json_valid", "C11_spec",
             "C11_non_string_not_indexed", "C11_literal_kinds_indexed", "C11_literal_kinds_indexed_default", "C11_locales_independent",
+            "C11_nested_counts", "C11_nested_blocks_aligned",
             "C11_old_refuted", "C11_old_refuted_nbsp"]
 PROPS = "theories/Props/C11.v"
 REGISTRY = {
